@@ -11,7 +11,11 @@ KDIR = os.path.join(cast.REPO, "src", "cpu-kernels")
 
 # files whose kernels call helper templates that do not carry the `awkward_` prefix: the AST filter is widened so
 # that the helpers (and, as before, every awkward_* function of the file) are extracted in ONE clang run
-FILTERS = {"awkward_quick_sort.cpp": "quick_sort", "awkward_quick_argsort.cpp": "quick_argsort"}
+FILTERS = {"awkward_quick_sort.cpp": "quick_sort", "awkward_quick_argsort.cpp": "quick_argsort",
+           "awkward_sort.cpp": "sort", "awkward_argsort.cpp": "argsort"}
+# files read in tolerant mode (std::vector / iterator / lambda code: a construct the converter does not know becomes an
+# explicit `unsupported` node that the evaluator refuses, instead of making the whole function untranslatable)
+TOLERANT = {"awkward_sort.cpp", "awkward_argsort.cpp", "awkward_ListOffsetArray_local_preparenext_64.cpp"}
 # helpers extracted by a second run and indexed by name only (never by AST id)
 HELPERS = {"awkward_quick_sort.cpp": ["binary_op"], "awkward_quick_argsort.cpp": ["binary_op"]}
 
@@ -19,7 +23,7 @@ HELPERS = {"awkward_quick_sort.cpp": ["binary_op"], "awkward_quick_argsort.cpp":
 def _extract(path):
     try:
         base = os.path.basename(path)
-        r = cast.extract_file(path, filt=FILTERS.get(base, "awkward_"))
+        r = cast.extract_file(path, filt=FILTERS.get(base, "awkward_"), tolerant=base in TOLERANT)
         for h in HELPERS.get(base, ()):
             r2 = cast.extract_file(path, filt=h, tolerant=True)
             for f in r2["functions"]:
